@@ -551,3 +551,14 @@ Definition defrag_step (st : option dstate) (e : dstep) : option dstate :=
       | DKeyChange => match waiting with [] => Some (S ep, [], out) | _ => None end
       end
   end.
+
+(* ---- TLS <= 1.2: when the negotiated limits take effect (RFC 8449 section 4: protected records only) ----
+   _sendFinished installs the send limit right after _changeWriteState(), _getFinished installs the
+   receive limit right after _changeReadState(); before that both are the protocol maximum.  TLS 1.3
+   installs both as soon as the extensions are known (everything after that is protected). *)
+Definition send_limit_at (write_switched negotiated client : bool) (ext : Z) : Z :=
+  if write_switched && negotiated then send_limit_after false client ext else 16384.
+Definition recv_limit_at (read_switched negotiated : bool) (own : Z) : Z :=
+  if read_switched && negotiated then recv_limit_after false own else 16384.
+(* the value carried by the extension of an endpoint whose setting is `own` *)
+Definition ext_sent (by_server : bool) (own : Z) : Z := if by_server then Z.min 16384 own else own.
